@@ -93,6 +93,9 @@ func (t *NotUndefType) Get(key string) (value px.Value, ok bool) {
 }
 
 func (t *NotUndefType) IsAssignable(o px.Type, g px.Guard) bool {
+	if on, ok := o.(*NotUndefType); ok {
+		return GuardedIsAssignable(t.typ, on.typ, g)
+	}
 	return !GuardedIsAssignable(o, undefTypeDefault, g) && GuardedIsAssignable(t.typ, o, g)
 }
 
